@@ -18,7 +18,7 @@ func (c13) Size(tier string) Size {
 	if tier == "thorough" {
 		return Size{Batches: 32, Cases: 4000}
 	}
-	return Size{Batches: 8, Cases: 500}
+	return Size{Batches: 16, Cases: 1500}
 }
 func (c13) Rule() string {
 	return "case = random type (soft or struct-backed) + resource payloads in which a random SUBSET of its attributes and relationships is present (every subset enumerated for a 7-field type in the directed part), relationships present with only links/meta and no data, explicit null values and null data, mostly valid and sometimes invalid literals, plus kind-mutated payloads; the same bytes go through UnmarshalPartialResource and UnmarshalResource. Oracle: accepted by one iff accepted by the other; on acceptance the partial resource's type name is the schema type's, Attrs() keys == the payload's attribute names and Rels() keys == the relationship members carrying a data member (both read by my own JSON walk), each definition equals the schema's, each value equals what full unmarshaling gives, Get of an absent field is nil. Non-trivial = payload with a proper non-empty subset of the type's fields; distinct = payload hash."
